@@ -841,12 +841,29 @@ func replay(path string) int {
 	if err != nil {
 		die(2, err.Error())
 	}
-	r, stderr, err := runSpec(bin, rf.Sim, rf.Property, rf.Spec, scr, true)
-	if err != nil {
-		if v, ok := classifyCrash(rf.Property, stderr); ok {
-			r.Violations = append(r.Violations, v)
-		} else {
-			die(2, err.Error())
+	// The schedule and every outcome replay exactly (same event-log hash). A race report, however, comes
+	// from the Go race detector, whose shadow memory evicts at random: a report that exists may be absent
+	// from a given execution. For race signatures the replay is therefore repeated a few times.
+	attempts := 1
+	if strings.Contains(rf.Sig, "/race:") {
+		attempts = 10
+	}
+	var r result
+	for a := 0; a < attempts; a++ {
+		var stderr string
+		r, stderr, err = runSpec(bin, rf.Sim, rf.Property, rf.Spec, scr, true)
+		if err != nil {
+			if v, ok := classifyCrash(rf.Property, stderr); ok {
+				r.Violations = append(r.Violations, v)
+			} else {
+				die(2, err.Error())
+			}
+		}
+		if hasSig(r, rf.Property, rf.Sig) {
+			if a > 0 {
+				fmt.Printf("(race report reproduced on attempt %d)\n", a+1)
+			}
+			break
 		}
 	}
 	fmt.Printf("replay %s: log_hash=%s steps=%d\n", path, r.LogHash, r.Steps)
